@@ -12,11 +12,14 @@ MODULES = [
     "contracts.c_fresh",
     "contracts.c_tzparse",
     "contracts.c_formats",
+    "contracts.c_calendars",
 ]
 
 STANDINS = [
     {"name": "tz_spellings", "module": "standins.tz_spellings", "props": ["C11"],
      "timeout": {"quick": 900, "thorough": 3600}},
+    {"name": "calendars_sweep", "module": "standins.calendars_sweep", "props": ["C15"],
+     "timeout": {"quick": 900, "thorough": 7200}},
 ]
 
 # level claimed per property (must match MANIFEST.json)
@@ -31,6 +34,7 @@ LEVELS = {
     "C04": "proof",
     "C11": "other",
     "C14": "other",
+    "C15": "other",
 }
 
 _COMMON = [
